@@ -72,6 +72,7 @@ def check(ctx, rep):
                     rep.sample({"rule": "T-SAT", "class": key, "extracted": val, "reference": exp, "example": ex})
     rep.analysed_item("range::BoundSet::satisfies interpreted on %d realisable gate valuations over 9 bound shapes" % total)
     range_satisfies(ctx, rep, prog, env)
+    range_any(rep, prog, env)
     if rep.inconclusive:
         witness(rep, prog, env)
     rep.notes.append("build metadata: the abstract versions of this table have no `build` field; any read of it would make "
@@ -211,3 +212,43 @@ def witness(rep, prog, env):
                              "`%s` satisfies(%s) = %s, expected %s" % (minver.alt_str(alt), minver.vstr(v), r, exp),
                              example="%s vs %s" % (minver.alt_str(alt), minver.vstr(v)))
     rep.analysed_item("witness search: %d (range, version) pairs over %d structured versions, %d mismatches" % (n, len(universe), bad))
+
+
+def range_any(rep, prog, env):
+    """Range::any() carries no comparator at all: its one alternative must be unbounded on both sides (a bound with a
+    version — e.g. `>=0.0.0-0` — would be a comparator nobody wrote, and a tagged one opens the gate)"""
+    from ..interp import Adt, Interp, ListV, Policy
+    rule = "R-ANY"
+    rep.rule(rule, 1, "Range::any() is the single alternative (unbounded, unbounded)")
+    if not prog.has_body("range::Range::any"):
+        rep.inconc("R-ANY: range::Range::any not found")
+        return
+    it = Interp(prog, Policy(), overrides=dict(intervals.LEVEL1))
+    try:
+        r = it.call_body("range::Range::any", [])
+        r = it.strip(r)
+        sets = it.strip(r.fields[0]) if isinstance(r, Adt) and r.name == "range::Range" else None
+        if not isinstance(sets, ListV):
+            raise Inconclusive("Range::any() returned %r" % (r,))
+        shapes = []
+        names = prog.field_names("range::BoundSet")
+        for bs in sets.items:
+            f = dict(zip(names, it.strip(bs).fields))
+            one = []
+            for side in ("lower", "upper"):
+                b = it.strip(f[side])
+                pred = it.strip(b.fields[0])
+                one.append(env.Pinv[pred.variant])
+            shapes.append(tuple(one))
+    except Inconclusive as e:
+        rep.inconc("R-ANY: " + e.reason, e.where)
+        return
+    except Panic as p:
+        rep.fail(rule, "range::Range::any|%s|panic" % rule, "Range::any() panics: %s" % p)
+        return
+    if shapes == [("U", "U")]:
+        rep.ok(rule)
+    else:
+        rep.fail(rule, "range::Range::any|%s|not unbounded" % rule,
+                 "Range::any() is built from bounds %s instead of one (unbounded, unbounded) alternative" % shapes,
+                 example="Range::any().satisfies(0.0.0-alpha)")
